@@ -52,17 +52,64 @@ Section S.
   Lemma removelast_last : forall (l : list rune) a, l <> [] -> removelast l ++ [last l a] = l.
   Proof. intros l a H. symmetry. apply app_removelast_last. exact H. Qed.
 
-  Lemma pass2_concat : forall gs carry, gs <> [] -> concat (pass2 carry gs) = carry ++ concat gs.
+  (* the invariant of the second loop: every group handed over by the first loop is
+     non-empty, hence  carry ++ g  (= runes[i]) and  g2  (= runes[i+1]) are, and all four
+     slice accesses of an iteration are in range *)
+  Lemma pass2_in_range : forall gs carry,
+    Forall (fun g => g <> []) gs -> exists out, pass2 carry gs = Ok out.
   Proof.
-    induction gs as [|g tl IH]; intros carry Hne; [congruence|].
-    cbn [CamelCase.pass2]. destruct tl as [|g2 tl'].
-    - cbn. rewrite !app_nil_r. reflexivity.
-    - destruct (hd_is rune (r_upper rune cls) (carry ++ g) && hd_is rune (r_lower rune cls) g2) eqn:E.
-      + destruct (carry ++ g) as [|a l] eqn:Eg; [cbn in E; discriminate|].
-        cbn [concat]. rewrite IH by discriminate.
-        rewrite app_assoc. rewrite removelast_last by discriminate.
-        rewrite <- Eg. cbn [concat]. rewrite <- app_assoc. reflexivity.
-      + cbn [concat]. rewrite IH by discriminate. cbn. rewrite <- app_assoc. reflexivity.
+    induction gs as [|g tl IH]; intros carry F; cbn [CamelCase.pass2]; [eauto|].
+    inversion F as [|? ? Hg Ftl]; subst.
+    destruct tl as [|g2 tl']; [eauto|].
+    assert (Hg' : carry ++ g <> []) by (destruct carry; [exact Hg|discriminate]).
+    destruct (carry ++ g) as [|a l] eqn:Eg; [congruence|].
+    inversion Ftl as [|? ? Hg2 _]; subst.
+    destruct g2 as [|b l2]; [congruence|].
+    cbn [idx0 idx_last slice_init bind].
+    destruct (r_upper rune cls a); cbn [bind].
+    - destruct (r_lower rune cls b).
+      + destruct (IH [last (a :: l) a] Ftl) as [out ->]. cbn [bind]. eauto.
+      + destruct (IH [] Ftl) as [out ->]. cbn [bind]. eauto.
+    - destruct (IH [] Ftl) as [out ->]. cbn [bind]. eauto.
+  Qed.
+
+  (* the accesses ARE checked: an empty group in either position makes the loop panic *)
+  Lemma pass2_empty_group_panics : forall g tl, pass2 [] ([] :: g :: tl) = Panic.
+  Proof. reflexivity. Qed.
+  Lemma pass2_empty_next_group_panics : forall a g tl,
+    r_upper rune cls a = true -> pass2 [] ((a :: g) :: [] :: tl) = Panic.
+  Proof. intros a g tl H. cbn. rewrite H. reflexivity. Qed.
+
+  Lemma pass2_concat : forall gs carry out,
+    gs <> [] -> pass2 carry gs = Ok out -> concat out = carry ++ concat gs.
+  Proof.
+    induction gs as [|g tl IH]; intros carry out Hne H; [congruence|].
+    cbn [CamelCase.pass2] in H. destruct tl as [|g2 tl'].
+    - inversion H; subst. cbn. rewrite !app_nil_r. reflexivity.
+    - destruct (carry ++ g) as [|a l] eqn:Eg; [discriminate|].
+      cbn [idx0 idx_last slice_init bind] in H.
+      assert (Hno : forall out', pass2 [] (g2 :: tl') = Ok out' ->
+                concat ((a :: l) :: out') = carry ++ concat (g :: g2 :: tl')).
+      { intros out' H'. cbn [concat]. rewrite (IH [] out') by (discriminate || exact H').
+        rewrite app_nil_l, <- Eg, <- app_assoc. reflexivity. }
+      destruct (match (if r_upper rune cls a
+                       then bind (idx0 rune g2) (fun b => Ok (r_lower rune cls b)) else Ok false)
+                with Ok m => Some m | _ => None end) as [m|] eqn:Em.
+      + destruct (if r_upper rune cls a
+                  then bind (idx0 rune g2) (fun b => Ok (r_lower rune cls b)) else Ok false)
+          as [m'| |]; try discriminate.
+        inversion Em; subst m'. cbn [bind] in H. destruct m.
+        * destruct (pass2 [last (a :: l) a] (g2 :: tl')) as [rest| |] eqn:Er; try discriminate.
+          cbn [bind] in H.
+          assert (Eo : out = removelast (a :: l) :: rest) by congruence. subst out.
+          cbn [concat]. rewrite (IH _ _ ltac:(discriminate) Er).
+          rewrite app_assoc. rewrite removelast_last by discriminate.
+          rewrite <- Eg. cbn [concat]. rewrite <- app_assoc. reflexivity.
+        * destruct (pass2 [] (g2 :: tl')) as [rest| |] eqn:Er; try discriminate.
+          inversion H; subst. apply Hno. reflexivity.
+      + destruct (if r_upper rune cls a
+                  then bind (idx0 rune g2) (fun b => Ok (r_lower rune cls b)) else Ok false)
+          as [m'| |]; discriminate.
   Qed.
 
   Lemma concat_filter_nonempty : forall (l : list (list rune)),
@@ -72,10 +119,19 @@ Section S.
     destruct g; cbn; [exact IH| rewrite IH; reflexivity].
   Qed.
 
+  Lemma pass1_groups_nonempty : forall fixed src gs,
+    pass1 fixed src [] COther = Ok gs -> Forall (fun g => g <> []) (rev gs).
+  Proof.
+    intros fixed src gs H. apply pass1_concat in H. destruct H as [_ H].
+    apply Forall_rev. apply H. constructor.
+  Qed.
+
   Lemma split_runes_total : forall src, exists ws, split_runes true src = Ok ws.
   Proof.
     intros src. unfold CamelCase.split_runes.
-    destruct (pass1_fixed_ok src [] COther) as [gs ->]. eauto.
+    destruct (pass1_fixed_ok src [] COther) as [gs E]. rewrite E.
+    destruct (pass2_in_range (rev gs) [] (pass1_groups_nonempty _ _ _ E)) as [out ->].
+    cbn [bind]. eauto.
   Qed.
 
   Lemma split_runes_lossless : forall fixed src ws,
@@ -83,16 +139,21 @@ Section S.
   Proof.
     intros fixed src ws H. unfold CamelCase.split_runes in H.
     destruct (pass1 fixed src [] COther) as [gs| |] eqn:E; try discriminate.
-    inversion H; subst; clear H. apply pass1_concat in E. destruct E as [E _]. cbn in E. split.
+    destruct (pass2 [] (rev gs)) as [out| |] eqn:E2; try discriminate.
+    cbn [bind] in H. inversion H; subst; clear H.
+    apply pass1_concat in E. destruct E as [E _]. cbn in E. split.
     - rewrite concat_filter_nonempty. destruct (rev gs) as [|g0 gl] eqn:Er.
-      + cbn in *. congruence.
-      + rewrite pass2_concat by discriminate. cbn [app]. exact E.
+      + cbn in *. inversion E2; subst. cbn. congruence.
+      + apply pass2_concat in E2; [|discriminate]. rewrite E2. cbn [app]. exact E.
     - apply Forall_forall. intros w Hin. apply filter_In in Hin.
       destruct Hin as [_ Hw]. destruct w; discriminate.
   Qed.
 
   Lemma split_total : forall s, exists ws, split true s = Ok ws.
   Proof. intros [rs|bs]; cbn; [apply split_runes_total|eauto]. Qed.
+
+  Lemma split_never_panics : forall s, split true s <> Panic /\ split true s <> OutOfFuel.
+  Proof. intros s. destruct (split_total s) as [ws ->]. split; discriminate. Qed.
 
   Lemma split_lossless : forall fixed s ws,
     split fixed s = Ok ws -> concat ws = content s /\ (content s <> [] -> Forall (fun w => w <> []) ws).
